@@ -1,6 +1,8 @@
 import TbbVerif.Core.Proto
 import TbbVerif.Model.C19
 import TbbVerif.Model.C19Life
+import TbbVerif.Model.C19Collab
+import TbbVerif.Model.C19Store
 import TbbVerif.Generated.C19
 
 open TbbVerif
@@ -9,7 +11,14 @@ def drivers : List (String × Proto.Driver) := [
   ("c19once", C19.Once.driver),
   ("c19ets", C19.Ets.driver),
   ("c19life", C19.Life.driverWith (C19.Life.Cfg.ofCodes Generated.C19.lifeClearKey Generated.C19.lifeClearNo Generated.C19.lifeCtorKey
-      Generated.C19.lifeCtorNo Generated.C19.lifeDtorKey Generated.C19.lifeDtorNo Generated.C19.lifeTlsLookup Generated.C19.lifeSwapKey))
+      Generated.C19.lifeCtorNo Generated.C19.lifeDtorKey Generated.C19.lifeDtorNo Generated.C19.lifeTlsLookup Generated.C19.lifeSwapKey)),
+  ("c19store", C19.Store.driverWith
+    { commitAfterConstruct := Generated.C19.stCommitAfterConstruct, claimAfterCreate := Generated.C19.stClaimAfterCreate }),
+  ("c19collab", C19.Collab.driverWith
+    { doneAfterCall := Generated.C19.skDoneAfterCall, dtorWaitsRefs := Generated.C19.skDtorWaitsRefs, resetByCas := Generated.C19.skResetByCas,
+      pinByCas := Generated.C19.skPinByCas, isolate := Generated.C19.skIsolate,
+      ord := { lateLoad := Generated.C19.ordLateLoad, spinLoad := Generated.C19.ordSpinLoad, doneCas := Generated.C19.ordDoneCas,
+               refDec := Generated.C19.ordRefDec, dtorLoad := Generated.C19.ordDtorLoad } })
 ]
 
 def main (args : List String) : IO UInt32 := Proto.mainOf drivers args
